@@ -7,14 +7,14 @@ CLAIMED = {
  "C01": ("srv", "4 C01", "seeded search over inbound message sequences, handler completion orders and goroutine interleavings; history oracle: bipartite match of every outbound record to one inbound message (exactly-once, grouping, order, array shape, reply-after-handlers) at the final quiescent point"),
  "C03": ("srv", "4 C03", "seeded search over interleavings of reader/dispatcher/handlers with held handlers; happens-before oracle on handler exit/enter sequence numbers plus a progress oracle at every quiescent point"),
  "C04": ("cli", "4 C04", "seeded search over concurrent Call/CallResult/Batch/Notify tasks against a scripted raw peer that answers in any order, grouped into arrays, duplicated, with unknown ids, single-defect members and server notifications/callbacks; unique-payload attribution oracle, batch order, id reuse, no panic"),
- "C05": ("cli", "4 C05", "seeded search over reply vs context cancel vs fake-clock deadline vs Close (also concurrent) vs peer EOF vs Recv/Send failure at scripted operation indexes vs malformed record; must/may outcome oracle, exactly-once hooks, Close-after-callbacks, operations on a stopped client, goroutine census"),
+ "C05": ("cli", "4 C05", "seeded search over reply vs context cancel vs fake-clock deadline vs Close (also concurrent) vs peer EOF vs Recv/Send failure at scripted operation indexes vs malformed record; must/may outcome oracle, exactly-once hooks, Close-after-callbacks, operations on a stopped client, goroutine census; thorough tier adds a systematic sweep: one run per channel-operation index and fault kind of every 6th workload"),
  "C11": ("stream", "4 C11", "a pipelined sender task and a receiver task over a simulated byte stream whose read chunking the simulator chooses (1-byte reads, random cuts, a single cut at a drawn position, everything at once, last chunk together with io.EOF), record sizes empty to > 1 MiB followed by small ones; received sequence must equal the sent sequence, then io.EOF twice; split-byte refusal"),
  "C12": ("stream", "4 C12", "fault injection on the byte stream (truncation at a drawn byte offset, byte flip/insert/delete, adversarial header blocks, random streams) under drawn fragmentation; every Recv is compared with three-valued reference decoders written from the package documentation; a worker process that dies (out of memory) is reported with its seed"),
  "C18": ("http", "4 C18", "1-4 concurrent HTTP caller tasks on one real Bridge (internal Client, Server and channel.Direct all instrumented) with colliding and exotic ids, mixed calls/notifications/single-defect members, non-POST, wrong content type/charset and non-JSON bodies, gated handlers; per-exchange status/body oracle against the request's own members, handler exactly-once count"),
  "C19": ("http", "4 C19", "(a) concurrent GETs on a real Getter with URLs over the property's alphabet, judged against the parser run as a function and against an independent reference of the documented typing rules (status mapping, body always JSON, accepted parameters marshalable, correctly typed and echoed); (b) a real Client over a real jhttp.Channel whose HTTPClient is an in-process round trip to a real Bridge, with Close at a drawn step, injected Do errors and non-200 statuses; equality with direct results, body open/close accounting, goroutine census"),
  "C20": ("loop", "4 C20", "real server.Loop over an in-memory Accepter or the real NetAccepter over an in-memory listener; connect / handler release / accepter failure / context cancel events in drawn order, failing Assigners; exactly-once Finish, Finish-after-server-exit, argument and status checks, Loop return order and value, connection closed after Assigner failure, goroutine census"),
  "C06": ("srv", "4 C06", "seeded search with Concurrency 1..4; online running-handler counter invariant at every handler entry and LogRequest, work-conservation oracle at quiescent points, proven cancel-while-waiting sub-scenario"),
- "C08": ("srv", "4 C08", "seeded search over stop causes (Stop, also from handlers and twice; early peer close; Recv failure with/without data, data+EOF; Send failure) placed at every channel-operation index, both Close-unblocks-Recv settings, traffic before and after the stop, then restart on a fresh channel; must/may status oracle, handler/ctx obligations, goroutine census, servers_active delta, restart probe"),
+ "C08": ("srv", "4 C08", "seeded search over stop causes (Stop, also from handlers and twice; early peer close; Recv failure with/without data, data+EOF; Send failure) placed at every channel-operation index, both Close-unblocks-Recv settings, traffic before and after the stop, then restart on a fresh channel; must/may status oracle, handler/ctx obligations, goroutine census, servers_active delta, restart probe (at a quiescent point or immediately after WaitStatus); thorough tier adds a systematic sweep: one run per channel-operation index and fault kind of every 6th workload"),
  "C09": ("srv", "4 C09", "seeded search over Notify/Callback from handlers and outside tasks with cancellable and fake-clock-deadline contexts, scripted peer answering in any order / late / duplicated / for unknown ids / never, colliding id spaces, Stop; exactly-once return, unique payload attribution and no-stray-output oracles"),
  "C10": ("srv", "4 C10", "seeded search over mixed workloads (calls, batches, pushes, callbacks, cancellations, stop, Recv failure) through an instrumented channel whose Send/Recv/Close can be preempted half-way; overlap counters, Close count and record-shape checks"),
  "C07": ("srv", "4 C07", "seeded search with ids from a pool of 3 and CancelRequest at arbitrary points; must/may oracle over arrival, handler and reply-send sequence numbers"),
